@@ -183,8 +183,19 @@ def valid(case: Any) -> bool:
             d = M.describe(n)
             if d["kind"] == "probe" and not n.get("context_key"):
                 return False
-            if n.get("sweep") and (not n["sweep"].get("vars")):
-                return False
+            if n.get("sweep"):
+                sw = n["sweep"]
+                if not sw.get("vars") or sw.get("mode", "combinatorial") not in ("combinatorial", "by_position"):
+                    return False
+                for v in sw["vars"].values():
+                    if v.get("kind") not in ("values", "range", "ctx"):
+                        return False
+                    if v["kind"] == "values" and not (isinstance(v.get("values"), list) and v["values"]):
+                        return False
+                    if v["kind"] == "range" and not all(k in v for k in ("lo", "hi", "steps")):
+                        return False
+                    if v["kind"] == "ctx" and not isinstance(v.get("key"), str):
+                        return False
         data = case.get("data", M.NONE)
         if not (isinstance(data, dict) and data.get("t") in ("None", "NoDataType", "FloatDataType") + M.COLLECTIONS):
             return False
